@@ -428,6 +428,25 @@ fn check_scroll(a: &mut Acc, stage: &str, idx: u64, s: &mut Session, fh: u64, to
     true
 }
 
+/// The scroll set-up depends on the framebuffer height only: vary everything else (colour and
+/// refresh order, inversion, a window smaller than the framebuffer, the builder call order).
+fn c16_vary(cfg: &mut DispCfg, h: u64) {
+    cfg.bgr = h & 1 == 1;
+    cfg.refresh = ((h >> 1) % 4) as u8;
+    cfg.invert = (h >> 3) & 1 == 1;
+    cfg.rst = (h >> 4) & 1 == 1;
+    cfg.order = if (h >> 5) & 1 == 1 { 0 } else { ((h >> 6) % 10_080) as u16 };
+    if (h >> 20) % 3 != 0 {
+        let (fw, fh) = cfg.model.fb();
+        let w = 1 + ((h >> 22) % fw as u64) as u16;
+        let hh = 1 + ((h >> 38) % fh as u64) as u16;
+        cfg.w = w;
+        cfg.h = hh;
+        cfg.ox = (((h >> 30) % (fw - w + 1) as u64)) as u16;
+        cfg.oy = (((h >> 46) % (fh - hh + 1) as u64)) as u16;
+    }
+}
+
 pub fn c16(args: &Args) -> Acc {
     let mut total = Acc::new();
     let models = scroll_models();
@@ -436,6 +455,7 @@ pub fn c16(args: &Args) -> Acc {
             let m = models[(idx / 8) as usize];
             let mut cfg = DispCfg::full(m, if idx % 3 == 0 || !m.supports(Tr::L1S.kind()) { Tr::L1P8 } else { Tr::L1S });
             cfg.ori = Ori((idx % 8) as u8);
+            c16_vary(&mut cfg, crate::prng::hash_str(&format!("C16/boundary/{}/{}", args.seed, idx)));
             // every fourth configuration through the real SPI transport with a very small staging
             // buffer (the 6 parameter bytes of the scroll definition are longer than it)
             if idx % 4 == 1 && m.supports(crate::rig::Kind::Serial) {
@@ -503,6 +523,40 @@ pub fn c16(args: &Args) -> Acc {
         });
         total.merge(acc);
     }
+    // "never panics" also on the error path: tens of thousands of scroll calls that fail on the
+    // bus, each reported as an error, then the definition is still sent correctly
+    if args.want_stage("failing-bus") && !crate::small() {
+        let acc = par_cases(4, args.threads, args.case, |idx, a| {
+            let m = [ModelId::ST7789, ModelId::ILI9486Rgb565, ModelId::GC9107, ModelId::Ext1x65535][idx as usize];
+            let tr = [Tr::L1S, Tr::P8, Tr::Spi, Tr::L1P16][idx as usize];
+            let mut cfg = DispCfg::full(m, tr);
+            cfg.spi_buf = 8;
+            cfg.ori = Ori((idx * 3 % 8) as u8);
+            let fh = m.fb().1 as u64;
+            let Opened::Ready(mut s) = Session::open(&cfg) else {
+                a.violate("failing-bus", idx, "init", "init failed".to_string(), cfg.to_json());
+                return;
+            };
+            a.case(&format!("failing-bus/{}/{}", m.name(), tr.name()), true);
+            for i in 0..65_540u64 {
+                let op = if i % 2 == 0 { Op::ScrollRegion((i % 300) as u16, 65_535 - (i % 7) as u16) } else { Op::ScrollOffset(i as u16) };
+                let r = s.step_with(&op, Some(0));
+                match &r.result {
+                    CallResult::Err(_) => a.count("scroll_calls_failing_on_the_bus", 1),
+                    CallResult::Panic { msg, loc } => {
+                        a.violate("failing-bus", idx, format!("{}/panic@{}[failing-bus]", op.name(), loc), format!("failing call number {}: {}", i + 1, msg), cfg.to_json());
+                        return;
+                    }
+                    other => {
+                        a.violate("failing-bus", idx, format!("{}/failure-not-reported", op.name()), format!("failing call number {} returned {:?}", i + 1, other), cfg.to_json());
+                        return;
+                    }
+                }
+            }
+            check_scroll(a, "failing-bus", idx, &mut s, fh, 3, 4, &cfg);
+        });
+        total.merge(acc);
+    }
     if args.want_stage("random") {
         let n = args.n(64, 64);
         let per = if args.quick() { 40_000u64 } else { 2_000_000 };
@@ -511,6 +565,7 @@ pub fn c16(args: &Args) -> Acc {
             let mut rng = Rng::for_case(args.seed, "C16/random", &args.tier, idx);
             let mut cfg = DispCfg::full(m, if m.supports(Tr::L1S.kind()) { Tr::L1S } else { Tr::L1P8 });
             cfg.ori = Ori(rng.below(8) as u8);
+            c16_vary(&mut cfg, rng.next());
             let fh = m.fb().1 as u64;
             let Opened::Ready(mut s) = Session::open(&cfg) else {
                 a.inconclusive("C16/random: init failed");
@@ -529,7 +584,7 @@ pub fn c16(args: &Args) -> Acc {
                     }
                     _ => (rng.range(0, 700) as u16, rng.range(0, 700) as u16),
                 };
-                a.case_hash(((m as u64) << 40) | (t as u64) << 20 | b as u64, true);
+                a.case_hash((m.ord() << 40) | (t as u64) << 20 | b as u64, true);
                 if !check_scroll(a, "random", idx, &mut s, fh, t, b, &cfg) {
                     return;
                 }
@@ -634,8 +689,82 @@ fn expect_cmd(a: &mut Acc, name: &str, idx: u64, got: Result<(u8, Vec<u8>), Stri
     }
 }
 
+/// A command type defined by the user of the crate (vendor commands, gamma tables ...): the
+/// trait is public, and `write_command` promises its 16-byte scratch buffer to every implementor.
+struct UserCmd {
+    ins: u8,
+    params: Vec<u8>,
+}
+impl DcsCommand for UserCmd {
+    fn instruction(&self) -> u8 {
+        self.ins
+    }
+    fn fill_params_buf(&self, buffer: &mut [u8]) -> usize {
+        buffer[..self.params.len()].copy_from_slice(&self.params);
+        self.params.len()
+    }
+}
+
 pub fn c18(args: &Args) -> Acc {
     let mut total = Acc::new();
+    if args.want_stage("user-commands") {
+        let mut a = Acc::new();
+        for n in 0..=16usize {
+            for variant in 0..6u8 {
+                let ins = 0xB0u8.wrapping_add(n as u8 * 3 + variant);
+                let params: Vec<u8> = (0..n).map(|i| (i as u8).wrapping_mul(37).wrapping_add(variant * 11) ^ 0xA5).collect();
+                let mut want = vec![BusEv::Cmd(ins)];
+                if !params.is_empty() {
+                    want.push(BusEv::Data(params.iter().map(|b| *b as u16).collect()));
+                }
+                let case = || J::obj().with("command", "user-defined DcsCommand").with("instruction", ins).with("params", params.clone()).with("variant", variant);
+                a.case(&format!("user/{}/{}", n, variant), true);
+                a.count("user_defined_commands_checked", 1);
+                // through the recording interface, its `&mut` forwarder, and the real SPI transport
+                // with staging buffers from empty to larger than the command
+                let bus = match variant {
+                    0 => via_bus(UserCmd { ins, params: params.clone() }),
+                    1 => {
+                        let tl = Tl::new(8);
+                        let mut di = L1::<u8, KSerial>::new(&tl);
+                        fn by_value<I: InterfaceExt>(mut i: I, c: UserCmd) -> Result<(), I::Error> {
+                            i.write_command(c)
+                        }
+                        match guarded(|| by_value(&mut di, UserCmd { ins, params: params.clone() })) {
+                            Ok(Ok(())) => tl.take_bus(),
+                            _ => vec![BusEv::Wire(crate::hal::WireAnomaly::SpiOtherOp("write_command panicked or failed"))],
+                        }
+                    }
+                    v => {
+                        let tl = Tl::new(8);
+                        let mut buf = vec![0x5Au8; [0usize, 1, 5, 64][(v - 2) as usize]];
+                        let mut di = mipidsi::interface::SpiInterface::new(tl.spi(), tl.pin(crate::hal::Src::Dc), &mut buf[..]);
+                        match guarded(|| di.write_command(UserCmd { ins, params: params.clone() })) {
+                            Ok(Ok(())) => tl.take_bus(),
+                            _ => vec![BusEv::Wire(crate::hal::WireAnomaly::SpiOtherOp("write_command panicked or failed"))],
+                        }
+                    }
+                };
+                // the SPI decoder may split the data; compare the flattened words
+                let flat = |evs: &[BusEv]| -> Vec<(bool, u16)> {
+                    let mut v = Vec::new();
+                    for e in evs {
+                        match e {
+                            BusEv::Cmd(c) => v.push((true, *c as u16)),
+                            BusEv::Data(d) => v.extend(d.iter().map(|w| (false, *w))),
+                            BusEv::Delay(_) => {}
+                            other => v.push((true, 0xFFFF ^ (format!("{:?}", other).len() as u16))),
+                        }
+                    }
+                    v
+                };
+                if flat(&bus) != flat(&want) {
+                    a.violate("user-commands", (n * 6) as u64 + variant as u64, format!("user-command/write_command[{}-bytes]", n), format!("bus saw {:?}, expected {:?}", bus, want), case());
+                }
+            }
+        }
+        total.merge(a);
+    }
     if args.want_stage("cmds") {
         let mut a = Acc::new();
         macro_rules! basic {
